@@ -83,6 +83,15 @@ def run(rep, tier):
         ok = c05.clause_a(facts, rep)
         c05.clause_b(facts, rep, ok)
         c05.clause_c(facts, rep, tier)
+    # elements must not be skipped as white space: table, mask width and mask composition of both kernels (shared with C15 / C01)
+    from . import c15
+    from .. import ws_table
+    for cfg3 in ('K1', 'K3'):
+        f3 = get_facts(cfg3)
+        rep.unit(f3)
+        ws_table.check(f3, rep)
+        c15.clause_f(f3, rep)
+        c15.clause_g(f3, rep)
     rep.extra['traces_validated_against_impl'] = 0
     rep.trust('clang 14 front end', 'hand-written RFC 8259 reference transducer (sv/e6_vpa.py ref_step)',
               'contract of scalar sub-parsers (one well-formed lexeme of their kind -> their event)')
